@@ -11,7 +11,7 @@ ParentVecs(n) == {p \in [1..n -> 0..(n - 1)] : p[1] = 0 /\ \A i \in 2..n : p[i] 
 RECURSIVE AscSeq(_)
 AscSeq(S) == IF S = {} THEN <<>> ELSE LET m == CHOOSE x \in S : \A y \in S : x <= y IN <<m>> \o AscSeq(S \ {m})
 KidsIn(p, i) == AscSeq({j \in DOMAIN p : p[j] = i})
-Caps == {"plain", "checker", "transformer", "both", "none"}
+Caps == {"plain", "checker", "transformer", "both", "none", "keep"}
 \* plain shapes: inner nodes are plain non-terminals, leaves are terminals
 ShapeTree(p) == [i \in DOMAIN p |-> IF KidsIn(p, i) = <<>> THEN Nd("term", "", <<>>) ELSE Nd("nt", "plain", KidsIn(p, i))]
 \* labelled: a leaf is a terminal, an Empty node or a childless non-terminal of any capability
@@ -30,7 +30,7 @@ NoStop == {0}
 Export ==
   (DoExport /\ visited = <<>> /\ result = "run") =>
     PrintT(ToJson([tree |-> tree, list |-> list, stopK |-> stopK,
-      walk |-> [log |-> WalkLog(tree, list, stopK), stopped |-> WalkResult(tree, list, stopK)],
+      walk |-> [log |-> EmptyAs(tree, WalkLog(tree, list, stopK)), stopped |-> WalkResult(tree, list, stopK)],
       passes |-> IF list \/ stopK # 0 THEN <<>> ELSE
         [f \in 1..(Len(tree) + 1) |->
            LET failAt == f - 1
